@@ -194,3 +194,27 @@ Definition half_guard (tbl : list (text * score)) (last : Q) (o : op) : bool :=
       | None => true
       end
   end.
+
+(* ---- "every sound is bounded": the time a call may spend in delay(), from its arguments alone ---- *)
+Definition nonneg_durations (o : op) : bool :=
+  match o with
+  | PlayTone _ (Some d) => qle q0 d
+  | Beep _ on off _ => qle q0 on && qle q0 off
+  | Sweep _ _ d _ => qle q0 d
+  | _ => true
+  end.
+Definition duration_bound (tbl : list (text * score)) (o : op) : Q :=
+  match o with
+  | PlayTone _ (Some d) => d
+  | PlayTone _ None => 0
+  | Stop => 0
+  | Beep _ on off times =>
+      let n := Z.max 0 (c_int times) in
+      inject_Z (n * Qfloor on + Z.max 0 (n - 1) * Qfloor off)
+  | Sweep _ _ d _ => d
+  | Melody name tempo =>
+      match tlookup name tbl with
+      | Some (t0, seq) => beats_total seq * (Qmake 60000 1 / eff_tempo t0 tempo)
+      | None => 0
+      end
+  end%Q.
